@@ -48,6 +48,7 @@ def c01(tier, replay):
 
 
 def c02(tier, replay):
+    guard = wire.vacuity_guard()
     return _run("C02", tier, ["dec"], replay, ASSUME_COMMON + [
         "round trip claimed only for vectors with GreedyTailAligned (spec operator)"], RULE)
 
@@ -58,3 +59,40 @@ def c04(tier, replay):
 
 def c19(tier, replay):
     return _run("C19", tier, ["mirror"], replay, ASSUME_COMMON, RULE)
+
+
+def c06(tier, replay):
+    rep = Report("C06", tier)
+    rep.assumptions = ASSUME_COMMON + [
+        "fault space = every truncation, 1-byte extensions, every control-word corruption from a fixed value set "
+        "(spec/WireDec.tla Faulted) of every canonical image; per-call watchdog 5 s; memory budget 64*len+1MiB "
+        "measured with tracemalloc",
+        "the reference decoder's verdict is recorded as information only - the property does not oblige the codec "
+        "to reject anything in particular"]
+    vs = wire.generate_faults(tier)
+    for st in vs.stats:
+        rep.add_tlc(st)
+    groups = wire.group_vectors(vs)
+    results = wire.run_batches(pywire.fault_worker, groups, vs, {"scratch": scratch_dir("py")})
+    outcomes = {}
+    for r in results:
+        if "crash" in r:
+            rep.violation({"what": "worker crashed or hung: %s" % r["crash"], "groups": r["groups"]})
+            continue
+        rep.count(r["n_vec"])
+        rep.validated(r["n_vec"])
+        for s in r["samples"]:
+            rep.sample(s)
+        for k in r["nontrivial"]:
+            rep.nontrivial(k)
+        for k, n in r["outcomes"].items():
+            outcomes[k] = outcomes.get(k, 0) + n
+        for f in r["fails"]:
+            rep.violation(f, shadows.match("C06", f))
+    rep.cov["outcomes (fault/python/spec-decoder)"] = outcomes
+    rep.cov["rule"] = ("TLC enumerates, for every enumerated (schema, value), every faulted image of its canonical "
+                       "encoding; each is decoded by the real codec; non-trivial = a faulted (not canonical) input; "
+                       "distinct = distinct (schema, input bytes)")
+    rep.cov["schemas"] = len(groups)
+    rep.cov["exhaustive"] = True
+    return rep.finish()
